@@ -276,6 +276,10 @@ func (dec *Decoder) decodeMB(tokenBR *bitio.BoolReader) error {
 
 	if !skip {
 		dec.parseResiduals(mb, left, block, tokenBR)
+		// A coded macroblock without any non-zero coefficient is treated like a
+		// skipped one by the loop filter (RFC 6386 section 15.1, libwebp's
+		// "skip = ParseResiduals()").
+		skip = block.NonZeroY|block.NonZeroUV == 0
 	} else {
 		left.Nz = 0
 		mb.Nz = 0
